@@ -22,6 +22,7 @@ From WG Require Import Sort.Pipeline.
 From WG Require Import Transform.Pipelines.
 From WG Require Import PMF.Sched.
 From WG Require Import PMF.Ord.
+From WG Require Import BV.Access.
 
 Extraction Language OCaml.
 
@@ -224,4 +225,17 @@ Extraction "model.ml"
   combine_results
   seq_fold
   ord_value
+  acc_ra
+  acc_ra_merge
+  acc_outdegree
+  acc_iter_from
+  acc_iter_from_ring
+  acc_offdeg
+  acc_offdeg_from
+  acc_offdeg_ring
+  acc_offdeg_from_ring
+  acc_next_successors
+  seq_iter_from
+  ra_labels
+  seek_bits
 .
